@@ -373,8 +373,8 @@ func (d *Datastore) Subscribe(req *sdcpb.SubscribeRequest, stream sdcpb.DataServ
 	// start periodic gets, TODO: optimize using cache RPC
 	wg := new(sync.WaitGroup)
 	wg.Add(len(req.GetSubscription()))
-	errCh := make(chan error, 1)
-	doneCh := make(chan struct{})
+	// every subscription reports at most once
+	errCh := make(chan error, len(req.GetSubscription()))
 	for _, subsc := range req.GetSubscription() {
 		go func(subsc *sdcpb.Subscription) {
 			ticker := time.NewTicker(time.Duration(subsc.GetSampleInterval()))
@@ -382,8 +382,6 @@ func (d *Datastore) Subscribe(req *sdcpb.SubscribeRequest, stream sdcpb.DataServ
 			defer wg.Done()
 			for {
 				select {
-				case <-doneCh:
-					return
 				case <-ctx.Done():
 					errCh <- ctx.Err()
 					return
@@ -391,7 +389,8 @@ func (d *Datastore) Subscribe(req *sdcpb.SubscribeRequest, stream sdcpb.DataServ
 					err := d.doSubscribeOnce(ctx, subsc, stream)
 					if err != nil {
 						errCh <- err
-						close(doneCh)
+						// the others stop as well
+						cancel()
 						return
 					}
 				}
